@@ -6,102 +6,8 @@ the result of `decMsg`/`decField`/`decEntry` does not depend on the fuel.
 namespace Pb
 open Spec
 
-theorem consumeFieldValue_group_nil (num : Nat) (d : Int) (n : Nat) :
-    consumeFieldValue num 3 [] d ≠ .ok n := by
-  simp only [consumeFieldValue, Spec.fuelFor, List.length_nil, fieldValueLen, groupLen, decTag, decVarint,
-    decVarintAux]
-  split
-  · rename_i r h
-    split at h <;> (cases h; intro hh; cases hh)
-  · intro hh; cases hh
-
-theorem decSubBytes_len {f : Field} {wt : Nat} {val p : List Byte}
-    (h : decSubBytes f wt val = some (.ok p)) : p.length + 1 ≤ val.length := by
-  unfold decSubBytes at h
-  split at h
-  · split at h
-    · cases h
-    · split at h
-      · rename_i q n hc
-        simp only [Option.some.injEq, Except.ok.injEq] at h
-        subst h
-        unfold consumeGroup at hc
-        split at hc
-        · cases hc
-        · rename_i n' hn
-          simp only [Except.ok.injEq, Prod.mk.injEq] at hc
-          obtain ⟨rfl, rfl⟩ := hc
-          have hs : (stripZeros7 (val.take n')).length ≤ val.length := by
-            unfold stripZeros7
-            rw [List.length_reverse]
-            refine Nat.le_trans (List.dropWhile_sublist _).length_le ?_
-            rw [List.length_reverse, List.length_take]
-            exact Nat.min_le_right _ _
-          have hpos := sizeVarint_pos (encTag f.num 0)
-          rw [List.length_take]
-          by_cases hv : val = []
-          · subst hv
-            exact absurd hn (consumeFieldValue_group_nil _ _ _)
-          · have : 1 ≤ val.length := by
-              cases val with
-              | nil => exact absurd rfl hv
-              | cons _ _ => simp
-            omega
-      · cases h
-  · split at h
-    · cases h
-    · split at h
-      · rename_i q n hc
-        simp only [Option.some.injEq, Except.ok.injEq] at h
-        subst h
-        unfold decBytes at hc
-        split at hc
-        · cases hc
-        · rename_i m k hv
-          have hk := decVarint_len hv
-          split at hc
-          · cases hc
-          · simp only [Except.ok.injEq, Prod.mk.injEq] at hc
-            obtain ⟨rfl, rfl⟩ := hc
-            rw [List.length_take, List.length_drop]
-            omega
-      · cases h
-
-theorem decBytes_payload_len {val p : List Byte} {n : Nat} (h : decBytes val = .ok (p, n)) :
-    p.length + 1 ≤ val.length := by
-  unfold decBytes at h
-  split at h
-  · cases h
-  · rename_i m k hv
-    have hk := decVarint_len hv
-    split at h
-    · cases h
-    · simp only [Except.ok.injEq, Prod.mk.injEq] at h
-      obtain ⟨rfl, rfl⟩ := h
-      rw [List.length_take, List.length_drop]
-      omega
-
-end Pb
-
-namespace Pb
-open Spec
-
-theorem decTag_len_pos {b : List Byte} {num typ n : Nat} (h : decTag b = .ok (num, typ, n)) :
-    1 ≤ n ∧ n ≤ b.length := by
-  unfold decTag at h
-  split at h
-  · cases h
-  · rename_i v k hv
-    have := decVarint_len hv
-    split at h
-    · cases h
-    · split at h
-      · cases h
-      · simp only [Except.ok.injEq, Prod.mk.injEq] at h
-        omega
-
 /-- one more unit of fuel changes nothing once the fuel covers the input -/
-theorem dec_fuel_step : ∀ (fu : Nat),
+theorem algFuelStep : ∀ (fu : Nat),
     (∀ S mi m b depth dis, b.length + 2 ≤ fu →
       decMsg fu S mi m b depth dis = decMsg (fu + 1) S mi m b depth dis) ∧
     (∀ S mi m f wt val depth dis, val.length + 2 ≤ fu →
@@ -110,7 +16,7 @@ theorem dec_fuel_step : ∀ (fu : Nat),
       decEntry fu S kf vf k v b depth dis = decEntry (fu + 1) S kf vf k v b depth dis)
   | 0 => ⟨by intros; omega, by intros; omega, by intros; omega⟩
   | fu + 1 => by
-    obtain ⟨ihM, ihF, ihE⟩ := dec_fuel_step fu
+    obtain ⟨ihM, ihF, ihE⟩ := algFuelStep fu
     refine ⟨?_, ?_, ?_⟩
     · intro S mi m b depth dis hb
       cases b with
@@ -121,7 +27,7 @@ theorem dec_fuel_step : ∀ (fu : Nat),
         | error e => rfl
         | ok r =>
           obtain ⟨num, wt, tagLen⟩ := r
-          have hl := decTag_len_pos hT
+          have hl := decTag_len hT
           simp only
           by_cases hmax : num > maxValidNumber
           · simp only [hmax, if_true]
@@ -151,7 +57,246 @@ theorem dec_fuel_step : ∀ (fu : Nat),
                 cases consumeFieldValue num wt (List.drop tagLen (x :: t)) with
                 | error e => rfl
                 | ok n => simp only; rw [ihM _ _ _ _ _ _ (hrest n)]
-    · sorry
-    · sorry
+    · intro S mi m f wt val depth dis hb
+      rw [decField.eq_2, decField.eq_2]
+      have hsub : ∀ p cur, decSubBytes f wt val = some (.ok p) →
+          decMsg fu S f.sub cur p (depth - 1) dis = decMsg (fu + 1) S f.sub cur p (depth - 1) dis := by
+        intro p cur hp
+        have := decSubBytes_payload_len hp
+        exact ihM _ _ _ _ _ _ (by omega)
+      have singular : (if f.kind.isMessage = true then
+            match decSubBytes f wt val with
+            | none => Step.unknown
+            | some (Except.error e) => Step.err e
+            | some (Except.ok p) =>
+              have fs0 :=
+                match f.oneof with
+                | some o => Fields.clearOneof (S.msg mi) o f.num m.fields
+                | none => m.fields;
+              have cur :=
+                match fs0.get? f.num with
+                | some (FVal.one (Val.msg x)) => x
+                | x => Msg.empty;
+              if depth - 1 < 0 then Step.err DErr.depth
+              else
+                match decMsg fu S f.sub cur p (depth - 1) dis with
+                | Except.error e => Step.err e
+                | Except.ok sub => Step.ok (Msg.mk (fs0.set f.num (FVal.one (Val.msg sub))) m.unknown)
+          else
+            match decScalar f wt val with
+            | none => Step.unknown
+            | some (Except.error e) => Step.err e
+            | some (Except.ok v) => Step.ok (Msg.mk (setSingular (S.msg mi) f m.fields v) m.unknown)) =
+          (if f.kind.isMessage = true then
+            match decSubBytes f wt val with
+            | none => Step.unknown
+            | some (Except.error e) => Step.err e
+            | some (Except.ok p) =>
+              have fs0 :=
+                match f.oneof with
+                | some o => Fields.clearOneof (S.msg mi) o f.num m.fields
+                | none => m.fields;
+              have cur :=
+                match fs0.get? f.num with
+                | some (FVal.one (Val.msg x)) => x
+                | x => Msg.empty;
+              if depth - 1 < 0 then Step.err DErr.depth
+              else
+                match decMsg (fu + 1) S f.sub cur p (depth - 1) dis with
+                | Except.error e => Step.err e
+                | Except.ok sub => Step.ok (Msg.mk (fs0.set f.num (FVal.one (Val.msg sub))) m.unknown)
+          else
+            match decScalar f wt val with
+            | none => Step.unknown
+            | some (Except.error e) => Step.err e
+            | some (Except.ok v) => Step.ok (Msg.mk (setSingular (S.msg mi) f m.fields v) m.unknown)) := by
+        cases hS : decSubBytes f wt val with
+        | none => rfl
+        | some r =>
+          cases r with
+          | error e => rfl
+          | ok p => simp only [hsub p _ hS]
+      cases hc : f.card with
+      | optional => exact singular
+      | implicit => exact singular
+      | required => exact singular
+      | repeated =>
+        simp only
+        cases hS : decSubBytes f wt val with
+        | none => rfl
+        | some r =>
+          cases r with
+          | error e => rfl
+          | ok p => simp only [hsub p _ hS]
+      | map =>
+        simp only
+        cases hB : decBytes val with
+        | error e => rfl
+        | ok r =>
+          obtain ⟨p, n⟩ := r
+          have := decBytes_payload_len hB
+          simp only [ihE _ _ _ _ _ p _ _ (by omega)]
+    · intro S kf vf k v b depth dis hb
+      cases b with
+      | nil => conv => lhs; unfold decEntry
+               conv => rhs; unfold decEntry
+      | cons x t =>
+        conv => lhs; unfold decEntry
+        conv => rhs; unfold decEntry
+        simp only
+        cases hT : decTag (x :: t) with
+        | error e => rfl
+        | ok r =>
+          obtain ⟨num, wt, tagLen⟩ := r
+          have hl := decTag_len hT
+          simp only
+          have hrest : ∀ n, (List.drop n (List.drop tagLen (x :: t))).length + 2 ≤ fu := by
+            intro n; rw [List.length_drop, List.length_drop]; omega
+          have hsub : ∀ p cur, decSubBytes vf wt (List.drop tagLen (x :: t)) = some (.ok p) →
+              decMsg fu S vf.sub cur p (depth - 1) dis = decMsg (fu + 1) S vf.sub cur p (depth - 1) dis := by
+            intro p cur hp
+            have := decSubBytes_payload_len hp
+            rw [List.length_drop] at this
+            exact ihM _ _ _ _ _ _ (by omega)
+          cases hC : consumeFieldValue num wt (List.drop tagLen (x :: t)) with
+          | error e =>
+            simp only
+            cases hS : decSubBytes vf wt (List.drop tagLen (x :: t)) with
+            | none => rfl
+            | some r =>
+              cases r with
+              | error e => rfl
+              | ok p => simp only [hsub p _ hS]
+          | ok n =>
+            have hE : ∀ k' v', decEntry fu S kf vf k' v' (List.drop n (List.drop tagLen (x :: t))) depth dis =
+                decEntry (fu + 1) S kf vf k' v' (List.drop n (List.drop tagLen (x :: t))) depth dis :=
+              fun k' v' => ihE _ _ _ _ _ _ _ _ (hrest n)
+            simp only [hE]
+            cases hS : decSubBytes vf wt (List.drop tagLen (x :: t)) with
+            | none => rfl
+            | some r =>
+              cases r with
+              | error e => rfl
+              | ok p => simp only [hsub p _ hS]
+
+/-- **fuel independence**: any two fuels ≥ `input length + 2` give the same result -/
+theorem decMsg_fuel_indep (S : Schema) (mi : Nat) (m : Msg) (b : List Byte) (depth : Int) (dis : Bool) :
+    ∀ (k : Nat) (f : Nat), b.length + 2 ≤ f →
+      decMsg (f + k) S mi m b depth dis = decMsg f S mi m b depth dis
+  | 0, _, _ => rfl
+  | k + 1, f, h => by
+    rw [← Nat.add_assoc, ← (algFuelStep (f + k)).1 S mi m b depth dis (by omega)]
+    exact decMsg_fuel_indep S mi m b depth dis k f h
+
+theorem decMsg_fuel_eq (S : Schema) (mi : Nat) (m : Msg) (b : List Byte) (depth : Int) (dis : Bool)
+    {f f' : Nat} (h : b.length + 2 ≤ f) (h' : b.length + 2 ≤ f') :
+    decMsg f S mi m b depth dis = decMsg f' S mi m b depth dis := by
+  rcases Nat.le_total f f' with hle | hle
+  · obtain ⟨k, rfl⟩ := Nat.exists_eq_add_of_le hle
+    exact (decMsg_fuel_indep S mi m b depth dis k f h).symm
+  · obtain ⟨k, rfl⟩ := Nat.exists_eq_add_of_le hle
+    exact decMsg_fuel_indep S mi m b depth dis k f' h'
+
+/-! ### a complete record is read the same way whatever follows it -/
+
+theorem consumeFieldValue_some {num typ : Nat} {b : List Byte} {d : Int} {n : Nat}
+    (h : consumeFieldValue num typ b d = .ok n) :
+    fieldValueLen (Spec.fuelFor b) num typ b d = some (.ok n) := by
+  unfold consumeFieldValue at h
+  split at h
+  · rename_i r hr; rw [hr, h]
+  · cases h
+
+theorem consumeFieldValue_ext {num typ : Nat} {b : List Byte} {d : Int} {n : Nat} (t : List Byte)
+    (h : consumeFieldValue num typ b d = .ok n) : consumeFieldValue num typ (b ++ t) d = .ok n := by
+  have h1 := consumeFieldValue_some h
+  have h2 := (fieldValueLen_mono (Spec.fuelFor b)).1 num typ b d n h1 (Spec.fuelFor (b ++ t)) d t
+    (by unfold Spec.fuelFor; simp only [List.length_append]; omega) (Int.le_refl _)
+  unfold consumeFieldValue
+  rw [h2]
+
+/-- the primitive reads implied by a complete record `(num, wt)` at the head of `val` -/
+theorem complete_cases {num wt : Nat} {val : List Byte} {k : Nat}
+    (h : consumeFieldValue num wt val = .ok k) :
+    (wt = 0 → ∃ v, decVarint val = .ok (v, k)) ∧ (wt = 5 → ∃ v, decFixed 4 val = .ok (v, k)) ∧
+    (wt = 1 → ∃ v, decFixed 8 val = .ok (v, k)) ∧ (wt = 2 → ∃ p, decBytes val = .ok (p, k)) := by
+  refine ⟨?_, ?_, ?_, ?_⟩
+  · rintro rfl
+    rw [consumeFieldValue_varint] at h
+    cases hv : decVarint val with
+    | error e => rw [hv] at h; cases h
+    | ok r => rw [hv] at h; obtain ⟨v, n⟩ := r; simp only [Except.map, Except.ok.injEq] at h; subst h; exact ⟨v, rfl⟩
+  · rintro rfl
+    rw [consumeFieldValue_fixed32] at h
+    cases hv : decFixed 4 val with
+    | error e => rw [hv] at h; cases h
+    | ok r => rw [hv] at h; obtain ⟨v, n⟩ := r; simp only [Except.map, Except.ok.injEq] at h; subst h; exact ⟨v, rfl⟩
+  · rintro rfl
+    rw [consumeFieldValue_fixed64] at h
+    cases hv : decFixed 8 val with
+    | error e => rw [hv] at h; cases h
+    | ok r => rw [hv] at h; obtain ⟨v, n⟩ := r; simp only [Except.map, Except.ok.injEq] at h; subst h; exact ⟨v, rfl⟩
+  · rintro rfl
+    rw [consumeFieldValue_bytes] at h
+    cases hv : decBytes val with
+    | error e => rw [hv] at h; cases h
+    | ok r => rw [hv] at h; obtain ⟨v, n⟩ := r; simp only [Except.map, Except.ok.injEq] at h; subst h; exact ⟨v, rfl⟩
+
+theorem decScalar_ext {f : Field} {num wt : Nat} {val : List Byte} {k : Nat} (y : List Byte)
+    (h : consumeFieldValue num wt val = .ok k) : decScalar f wt (val ++ y) = decScalar f wt val := by
+  obtain ⟨h0, h5, h1, h2⟩ := complete_cases h
+  unfold decScalar
+  by_cases hw : wt ≠ f.kind.wireType
+  · rw [if_pos hw, if_pos hw]
+  · rw [if_neg hw, if_neg hw]
+    have hw' : wt = f.kind.wireType := by simpa using hw
+    split
+    · rename_i hk
+      obtain ⟨v, hv⟩ := h0 (hw'.trans hk)
+      rw [decVarint_ext y hv, hv]
+    · rename_i hk
+      obtain ⟨v, hv⟩ := h5 (hw'.trans hk)
+      rw [decFixed_ext y hv, hv]
+    · rename_i hk
+      obtain ⟨v, hv⟩ := h1 (hw'.trans hk)
+      rw [decFixed_ext y hv, hv]
+    · rename_i hk
+      obtain ⟨p, hv⟩ := h2 (hw'.trans hk)
+      rw [decBytes_ext y hv, hv]
+    · rfl
+
+theorem decSubBytes_ext {f : Field} {wt : Nat} {val : List Byte} {k : Nat} (y : List Byte)
+    (h : consumeFieldValue f.num wt val = .ok k) : decSubBytes f wt (val ++ y) = decSubBytes f wt val := by
+  unfold decSubBytes
+  split
+  · by_cases hw : wt ≠ 3
+    · rw [if_pos hw, if_pos hw]
+    · rw [if_neg hw, if_neg hw]
+      have hw' : wt = 3 := by simpa using hw
+      subst hw'
+      unfold consumeGroup
+      rw [consumeFieldValue_ext y h, h]
+      simp only
+      rw [List.take_append_of_le_length (consumeFieldValue_le h)]
+  · by_cases hw : wt ≠ 2
+    · rw [if_pos hw, if_pos hw]
+    · rw [if_neg hw, if_neg hw]
+      have hw' : wt = 2 := by simpa using hw
+      obtain ⟨p, hv⟩ := (complete_cases h).2.2.2 hw'
+      rw [decBytes_ext y hv, hv]
+
+/-- `decField` on a complete record does not look beyond it -/
+theorem decField_ext (S : Schema) (mi : Nat) (m : Msg) (f : Field) (wt : Nat) (val y : List Byte)
+    (depth : Int) (dis : Bool) {k : Nat} (h : consumeFieldValue f.num wt val = .ok k) (fuel : Nat) :
+    decField fuel S mi m f wt (val ++ y) depth dis = decField fuel S mi m f wt val depth dis := by
+  cases fuel with
+  | zero => rfl
+  | succ fu =>
+    rw [decField.eq_2, decField.eq_2, decScalar_ext y h, decSubBytes_ext y h]
+    by_cases hw : wt = 2
+    · obtain ⟨p, hv⟩ := (complete_cases h).2.2.2 hw
+      rw [decBytes_ext y hv, hv]
+    · simp only [hw, decide_false, Bool.and_false, Bool.false_eq_true, if_false, ne_eq, not_false_eq_true,
+        if_true]
 
 end Pb
